@@ -181,7 +181,7 @@ def main():
         "setup_cmd": "./build.sh all",
         "hooks": {
             "guard": "verif",
-            "enable": "no source change in /repo: ./build.sh builds the drivers with go build -tags verif -overlay (fake goexpect; for C16 additionally the map-range rewrite + verifmap shim); see MANIFEST.hooks",
+            "enable": "no source change in /repo: ./build.sh builds the drivers with go build -tags verif (goexpect replaced by a stand-in module through the harness go.mod; for C16/C12 additionally -overlay with the map-range rewrite + verifmap shim + lock points, files of /repo only); see MANIFEST.hooks",
             "baseline_off_cmd": "cd /repo/go && GOFLAGS=-mod=mod GOPROXY=off go test -vet=off -count=1 ./...",
             "source_commits": [],
             "add_only": True,
